@@ -11,6 +11,8 @@
 //   new thread <limit> | new process <limit> <segment bytes = argv[1]>
 //   store <now> <key> <val> <trig,trig,..|-> <deadline> <gen|-> [annotations ignored here]
 //   fetch <now> <key> | rise <trig> | remove <key> | clear | stats | avail
+//   fork <n>            n worker processes are forked now (after `new process …`); `@<i> <line>` = the line is executed
+//                       by worker i (0 = this process); the answer is the worker's
 // answer: <result> [copyfail] [nem=<0/1 per evaluation of check_limits' guard>] | <keys> <triggers> [lowmem] [maxavail-mismatch]
 #include "common.h"
 #include "base_cache.h"
@@ -25,6 +27,9 @@
 #include <booster/intrusive_ptr.h>
 #include <set>
 #include <time.h>
+#include <unistd.h>
+#include <sys/wait.h>
+#include <signal.h>
 
 static time_t virtual_now = 1000;
 extern "C" time_t time(time_t *t) { if(t) *t=virtual_now; return virtual_now; }
@@ -107,10 +112,73 @@ static std::string tail()
 	return ss.str();
 }
 
+// ---- worker processes (`fork <n>`): children forked after the process-shared cache was created execute the lines
+// addressed to them (`@<i> <op …>`); the parent sequences them through pipes, so the global history is the order of
+// the lines.  Everything a worker does must be visible to all others: the cache is *process* shared.
+struct worker { pid_t pid; int to; int from; };
+static std::vector<worker> workers;
+static std::string run(std::vector<std::string> const &w);
+
+static void stop_workers()
+{
+	for(size_t i=0;i<workers.size();i++) { ::close(workers[i].to); ::close(workers[i].from); }
+	for(size_t i=0;i<workers.size();i++) { int st=0; ::waitpid(workers[i].pid,&st,0); }
+	workers.clear();
+}
+static bool read_line(int fd,std::string &line)
+{
+	line.clear(); char c;
+	for(;;) { ssize_t n=::read(fd,&c,1); if(n<=0) return false; if(c=='\n') return true; line.push_back(c); }
+}
+static bool write_all(int fd,std::string const &s)
+{
+	size_t off=0; while(off<s.size()) { ssize_t n=::write(fd,s.data()+off,s.size()-off); if(n<=0) return false; off+=n; } return true;
+}
+static bool start_workers(int n)
+{
+	for(int i=0;i<n;i++) {
+		int a[2],b[2];
+		if(::pipe(a)!=0 || ::pipe(b)!=0) return false;
+		pid_t pid=::fork();
+		if(pid<0) return false;
+		if(pid==0) {
+			::close(a[1]); ::close(b[0]);
+			for(size_t j=0;j<workers.size();j++) { ::close(workers[j].to); ::close(workers[j].from); }
+			workers.clear();
+			std::string line;
+			while(read_line(a[0],line)) {
+				std::string r;
+				try { r=run(vh::words(line)); } catch(std::exception const &e) { r=std::string("exception ")+e.what(); }
+				if(!write_all(b[1],r+"\n")) break;
+			}
+			::_exit(0);
+		}
+		::close(a[0]); ::close(b[1]);
+		worker wk={pid,a[1],b[0]}; workers.push_back(wk);
+	}
+	return true;
+}
+
 static std::string run(std::vector<std::string> const &w)
 {
 	if(w.empty()) return "bad-op";
+	if(w[0].size()>1 && w[0][0]=='@') {
+		size_t i=strtoul(w[0].c_str()+1,0,10);
+		std::vector<std::string> rest(w.begin()+1,w.end());
+		if(i==0) return run(rest);
+		if(i>workers.size()) return "bad-op";
+		std::string line,reply;
+		for(size_t j=0;j<rest.size();j++) { if(j) line+=" "; line+=rest[j]; }
+		if(!write_all(workers[i-1].to,line+"\n") || !read_line(workers[i-1].from,reply)) return "worker-died";
+		return reply;
+	}
+	if(w[0]=="fork" && w.size()==2) {
+		if(!cache || !workers.empty()) return "bad-op";
+		if(!start_workers(atoi(w[1].c_str()))) return "cannot-fork";
+		return "ok"+tail();
+	}
 	if(w[0]=="new" && w.size()>=3) {
+		stop_workers();
 		drop_cache();
 		unsigned limit=strtoul(w[2].c_str(),0,10);
 		if(w[1]=="thread" && w.size()==3) { is_process=false; cache=cppcms::impl::thread_cache_factory(limit); }
@@ -176,7 +244,9 @@ int main(int argc,char **argv)
 {
 	cppcms_verif_limits_hook=limits_hook;
 	if(argc>1) shm_size=strtoull(argv[1],0,10);
+	::signal(SIGPIPE,SIG_IGN);
 	int r=vh::drive(run);
+	stop_workers();
 	drop_cache();
 	return r;
 }
